@@ -205,6 +205,18 @@ pub fn run(run: &mut Run) -> PResult {
             return run.violation("C10.sequence", &format!("{} ; {}", hex(items[a].0), hex(items[b].0)), json!({"calls": [{"accessors": hex(items[a].0)}, {"accessors": hex(items[b].0)}]}), &format!("after the accessors were called on {}: {}", card::render(items[a].0), m));
         }
     }
+    super::common::count_soak(run, "filter and accessors on cards and near-miss words", (1 << 30) + (1 << 16), &soak_step)?;
+    if run.tier == crate::engine::Tier::Thorough {
+        // one card filtered more than 2^32 times by one thread (a per-entry use counter), 8 cards at once
+        super::common::count_soak(run, "the same card filtered 2^32 times", 8 * ((1u64 << 32) + 8), &|n| {
+            let per = (1u64 << 32) + 8 + 1;
+            let c = card::DECK[((n / per) * 5 % 52) as usize];
+            if ckc_rs::CardNumber::filter(c) != c || (n % per > (1u64 << 32) && (ckc_rs::CardNumber::filter(c + 1) != 0 || ckc_rs::CardNumber::filter(c - 1) != 0)) {
+                return Err(format!("after {} uses of {}: filter({}) = {}, filter({}) = {}", n % per, card::render(c), hex(c), hex(ckc_rs::CardNumber::filter(c)), hex(c + 1), hex(ckc_rs::CardNumber::filter(c + 1))));
+            }
+            Ok(())
+        })?;
+    }
     // filter over all words
     filter_scan(run, "C10.filter")?;
     let near = hamming2().iter().filter(|w| !card::is_card(**w)).count() as u64;
@@ -217,7 +229,10 @@ pub fn run(run: &mut Run) -> PResult {
 }
 
 pub fn check_case(clause: &str, case: &Value) -> Result<(), String> {
-    if clause.ends_with(".after_disturbance") || clause.ends_with(".concurrent") || clause.ends_with(".concurrent_cold_start") {
+    if clause.ends_with(".soak") {
+        return super::common::replay_soak(case, &soak_step);
+    }
+    if clause.ends_with(".after_disturbance") || clause.ends_with(".concurrent") || clause.ends_with(".concurrent_cold_start") || clause.ends_with(".after_repetition") {
         return super::common::replay_after_disturbance(case, check_case);
     }
     match clause {
@@ -281,4 +296,28 @@ pub fn check_case(clause: &str, case: &Value) -> Result<(), String> {
         "C10.filter" => super::c04::check_case("C04.recogniser", case),
         _ => Err(format!("unknown clause {}", clause)),
     }
+}
+
+/// soak step n: the filter and a few accessors on a card or a near-miss word derived from n
+pub fn soak_step(n: u64) -> Result<(), String> {
+    let c = card::DECK[(n % 52) as usize];
+    let w = match (n / 52) % 8 {
+        0 | 1 | 2 | 3 => c,
+        4 => c + 1,
+        5 => c | (1 << 29),
+        6 => c ^ (1 << ((n / 416) % 32)),
+        _ => c - 1,
+    };
+    let want = if card::is_card(w) { w } else { 0 };
+    let got = ckc_rs::CardNumber::filter(w);
+    if got != want {
+        return Err(format!("filter({}) = {}, expected {}", hex(w), hex(got), hex(want)));
+    }
+    if w == c {
+        let (r, s) = card::decode(c).unwrap();
+        if c.get_rank_prime() != card::PRIMES[r as usize] || c.get_suit_bit() != 1 << s || c.get_rank_char() != card::RANK_CHARS[r as usize] {
+            return Err(format!("accessors on {} read prime {}, suit bit {}, rank char {:?}", card::render(c), c.get_rank_prime(), c.get_suit_bit(), c.get_rank_char()));
+        }
+    }
+    Ok(())
 }
